@@ -253,6 +253,8 @@ def join(a, b):
         return "optint"
     if s <= {"none", "float", "optfloat"}:
         return "optfloat"
+    if s <= {"none", "bytes", "optbytes"}:
+        return "optbytes"
     for x, y in ((a, b), (b, a)):
         if x == "none" and y.startswith("obj:"):
             return "opt:" + y
@@ -521,6 +523,59 @@ def infer_call(ix, e, ctx):
     return "unknown"
 
 
+def log_safe(ix, e, ctx, notnone=frozenset()):
+    """The expression e is EVALUATED INSIDE LOG CODE (a record leaf or an encoder argument): its own operations must be of
+    forms that cannot raise on values of the inferred types.  (What names / attributes hold is decided by infer(), which
+    looks at core code; an operation that can raise there raises with and without logging.)"""
+    if isinstance(e, (ast.Constant, ast.Name)):
+        return True
+    if isinstance(e, ast.Attribute):
+        # reading an attribute of an object of a known class (or an Enum member); the object expression itself must be safe
+        t = infer(ix, e, ctx)
+        if t is None or t == "unknown":
+            return False
+        if isinstance(e.value, ast.Name):
+            return True
+        return log_safe(ix, e.value, ctx) and (infer(ix, e.value, ctx) or "").startswith(("obj:", "enum:"))
+    if isinstance(e, ast.BinOp):
+        if not isinstance(e.op, (ast.Add, ast.Sub, ast.Mult)):
+            return False          # / // % ** << can raise (ZeroDivisionError, OverflowError, MemoryError)
+        a, b = infer(ix, e.left, ctx), infer(ix, e.right, ctx)
+        if a in ("int", "bool") and b in ("int", "bool") or (a == "float" and b == "float"):
+            return log_safe(ix, e.left, ctx) and log_safe(ix, e.right, ctx)
+        return False              # int*float conversions can overflow, None arithmetic raises
+    if isinstance(e, ast.Compare):
+        ok_ops = all(isinstance(o, (ast.Is, ast.IsNot, ast.Eq, ast.NotEq)) for o in e.ops)
+        return ok_ops and log_safe(ix, e.left, ctx) and all(log_safe(ix, c, ctx) for c in e.comparators)
+    if isinstance(e, ast.IfExp):
+        nb, no = set(notnone), set(notnone)
+        t = e.test
+        if isinstance(t, ast.Compare) and len(t.ops) == 1 and isinstance(t.left, ast.Name) \
+                and isinstance(t.comparators[0], ast.Constant) and t.comparators[0].value is None:
+            if isinstance(t.ops[0], ast.Is):
+                no.add(t.left.id)
+            elif isinstance(t.ops[0], ast.IsNot):
+                nb.add(t.left.id)
+        return log_safe(ix, e.test, ctx, notnone) and log_safe(ix, e.body, ctx, frozenset(nb)) and log_safe(ix, e.orelse, ctx, frozenset(no))
+    if isinstance(e, ast.UnaryOp) and isinstance(e.op, ast.Not):
+        return log_safe(ix, e.operand, ctx, notnone)
+    if isinstance(e, ast.Call) and not e.keywords and len(e.args) == 1 and isinstance(e.func, ast.Name):
+        t = infer(ix, e.args[0], ctx)
+        if t == "optbytes" and isinstance(e.args[0], ast.Name) and e.args[0].id in notnone:
+            t = "bytes"
+        if e.func.id == "len":
+            return t in ("bytes", "str", "jsonlist", "jsondict", "headers") and log_safe(ix, e.args[0], ctx)
+        if e.func.id in ("hexdump", "dump_cid"):
+            return t == "bytes" and log_safe(ix, e.args[0], ctx)      # encoders_total_hexdump
+        if e.func.id == "int":
+            return t in ("int", "bool") and log_safe(ix, e.args[0], ctx)   # int(float) raises on inf / NaN
+        return False
+    if isinstance(e, ast.Call) and isinstance(e.func, ast.Attribute) and isinstance(e.func.value, ast.Attribute) \
+            and e.func.value.attr == "_quic_logger":
+        return True               # an encoder call: its own site entry in enc_sites carries the obligation
+    return False
+
+
 COQ_TY = {"optfloat": "TJson", "none": "TNone", "bool": "TBool", "int": "TInt", "float": "TFloat", "str": "TStr", "bytes": "TBytes",
           "optint": "TOptInt", "json": "TJson", "jsondict": "TJsonDict", "jsonlist": "TJsonList", "any": "TAny",
           "headers": "THeaders", "unknown": "TUnknown"}
@@ -575,6 +630,8 @@ class Tx:
             if c == src:
                 return "(EVar %s)" % cstr(n)
         t = infer(self.ix, e, self.ctx)
+        if not log_safe(self.ix, e, self.ctx):
+            t = "unknown"
         # an encoder call: record the site, the value is JSON by meth_sound
         if isinstance(e, ast.Call) and isinstance(e.func, ast.Attribute) and isinstance(e.func.value, ast.Attribute) \
                 and e.func.value.attr == "_quic_logger":
@@ -897,6 +954,8 @@ def guarded_not_none(fn, node, name):
 
 def site_arg_type(ix, fn, call, arg, ctx):
     t = infer(ix, arg, ctx)
+    if not log_safe(ix, arg, ctx):
+        return "unknown"
     if t and t.startswith("opt:obj:") and isinstance(arg, ast.Name) and guarded_not_none(fn, call, arg.id):
         return t[4:]
     return t
